@@ -462,6 +462,7 @@ int main(int argc, char** argv) {
   // optional filters (debugging / focused runs)
   std::string fFamily = H.param("family"), fOp = H.param("op"), fEtype = H.param("etype"), fCfg = H.param("cfg");
   long fThreads = H.paramInt("threads", 0);
+  uint64_t salt = (uint64_t)H.paramInt("salt", 0); // makes the runs of one check draw different cases
   long maxNodesP = H.paramInt("maxnodes", 0);
   std::string fShape = H.param("shape");
   std::map<std::pair<std::string, std::string>, std::vector<const Entry*>> groups;
@@ -497,7 +498,7 @@ int main(int argc, char** argv) {
   mkdir(dir.c_str(), 0755);
 
   for (long k = H.firstCase(); k < H.endCase(); ++k) {
-    Rng rng(H.caseSeed(k));
+    Rng rng(mix(H.caseSeed(k), salt));
     auto& group    = *groupList[rng.below(groupList.size())];
     const Entry& E = *group[rng.below(group.size())];
 
